@@ -230,6 +230,10 @@ def handler_cls():
     return _HCLS[0]
 
 
+class Boom(Exception):
+    """the caller's own failure inside a bulk update"""
+
+
 ROUTES = ('wreq', 'areq', 'wresp', 'aresp', 'wapp', 'aapp')
 
 
@@ -372,6 +376,28 @@ class HRun:
                     ev['exc'] = 'keyerror'
             elif op == 'update':
                 H.update([(self.key(p['k']), self.hobj(p['h'])) for p in c['pairs']])
+            elif op == 'updatefail':
+                # a bulk update that fails after the given pairs were handed over: the iterable raises, or
+                # the next pair is malformed.  The caller's exception must come back out.
+                good = [(self.key(p['k']), self.hobj(p['h'])) for p in c['pairs']]
+                mode = (len(good) + c['o'] + len(self.abst)) % 3
+
+                def gen():
+                    for kv in good:
+                        yield kv
+                    raise Boom()
+                try:
+                    if mode == 0:
+                        H.update(gen())
+                    elif mode == 1:
+                        H.update(good + [('text/x-malformed-pair',)])
+                    else:
+                        H.update(iter(good + [None]))
+                except Boom:
+                    ev['exc'] = 'raised'
+                except (ValueError, TypeError):
+                    ev['exc'] = 'raised' if mode != 0 else 'other'
+                ev['mode'] = mode
             elif op == 'clear':
                 H.clear()
             elif op == 'setdefault':
@@ -441,7 +467,7 @@ def leg_m(ctx):
     ctx.progress('leg M mediatypes done (%d states)' % r.distinct)
     # C11b: all histories up to the depth bound
     rh = ctx.tlc('MC_Handlers', 'MC_HandlersD3.cfg', coverage=True, timeout=900, workers=8)
-    ctx.require_coverage(rh, ['MSet', 'MSetDefault', 'MDel', 'MPop', 'MUpdate', 'MClear', 'MCopy', 'MResolve'])
+    ctx.require_coverage(rh, ['MSet', 'MSetDefault', 'MDel', 'MPop', 'MUpdate', 'MUpdateFail', 'MClear', 'MCopy', 'MResolve'])
     if not q:
         ctx.tlc('MC_Handlers', 'MC_HandlersQ.cfg', timeout=1500, workers=16)
         # wrong designs must be caught by the model (vacuity of the invariants)
@@ -508,8 +534,8 @@ def leg_a_cases(ctx):
 
 def judge_handler_event(ctx, ev, want_call, want_map, want_ds, case):
     """leg A: compare one real call with what TLC's behaviour says (P/D split as in HandlersTrace)."""
-    if ev['exc'] == 'other':
-        ctx.violation('P:exc', case, '%s raised %s' % (ev['op'], ev.get('info')))
+    if ev['exc'] == 'other' or (ev['exc'] == 'raised') != (ev['op'] == 'updatefail'):
+        ctx.violation('P:exc', case, '%s: exc=%s %s' % (ev['op'], ev['exc'], ev.get('info')))
         return False
     if ev['op'] == 'resolve':
         ds = set(want_ds)
@@ -692,9 +718,21 @@ def leg_b_handlers(ctx):
         tcts = rng.sample(cts, rng.choice((1, 2, 2, 3, 5)))
         tdefs = rng.sample(defaults, rng.choice((1, 1, 2)))
         mutated = nontrivial = False
+        asked = []          # resolutions made so far: (call, route); re-asked right after mutations
+
+        def curkey(o):
+            have = [e['k'] for e in run.view(o)]
+            return rng.choice(have) if have and rng.random() < 0.6 else rng.choice(nkeys)
         for _ in range(rng.randint(4, 30)):
             o = rng.randint(1, len(run.objs))
             u = rng.random()
+            if asked and mutated and evs and evs[-1]['op'] != 'resolve' and u < 0.5:
+                # the same question, through the same place, on the object that was just changed
+                same = [a for a in asked if a[0]['o'] == evs[-1]['o']] or asked
+                c, route = rng.choice(same)
+                evs.append(run.apply(dict(c), route))
+                nontrivial = True
+                continue
             if u < 0.45:
                 r = rng.random() < 0.9
                 c = {'op': 'resolve', 'o': o, 'ct': rng.choice(tcts), 'd': rng.choice(tdefs), 'r': r}
@@ -707,8 +745,10 @@ def leg_b_handlers(ctx):
                 c = {'op': 'del', 'o': o, 'k': rng.choice(nkeys)}
             elif u < 0.76:
                 c = {'op': 'pop', 'o': o, 'k': rng.choice(nkeys), 'r': rng.random() < 0.5}
-            elif u < 0.83:
+            elif u < 0.80:
                 c = {'op': 'update', 'o': o, 'pairs': [{'k': rng.choice(nkeys), 'h': newh()} for _ in range(rng.randint(1, 3))]}
+            elif u < 0.85:
+                c = {'op': 'updatefail', 'o': o, 'pairs': [{'k': curkey(o), 'h': newh()} for _ in range(rng.randint(0, 3))]}
             elif u < 0.89:
                 c = {'op': 'setdefault', 'o': o, 'k': rng.choice(nkeys), 'h': newh()}
             elif u < 0.93:
@@ -719,7 +759,10 @@ def leg_b_handlers(ctx):
                 c = {'op': 'copy', 'o': o}
             if c['op'] != 'resolve':
                 mutated = True
-            evs.append(run.apply(c, rng.choice(ROUTES) if rng.random() < 0.25 else rng.choice(ROUTES[:4])))
+            route = rng.choice(ROUTES) if rng.random() < 0.25 else rng.choice(ROUTES[:4])
+            evs.append(run.apply(c, route))
+            if c['op'] == 'resolve':
+                asked.append((c, route))
         t = {'init': init, 'ev': evs}
         k = digest([init, [[e[f] for f in ('op', 'o', 'k', 'h', 'pairs', 'ct', 'd', 'r', 'res', 'exc', 'map')] for e in evs]])
         ctx.case({'leg': 'B-handlers', 'init': init, 'calls': len(evs)}, nontrivial=nontrivial, key=k)
@@ -758,6 +801,8 @@ def run(ctx):
                        'which of several equally good mapping keys wins (exact key first, then first inserted) is model '
                        'detail (D); P demands a handler of the CURRENT mapping under a key of maximal positive quality',
                        'Handlers.__ior__ and copy() of an emptied mapping are excluded (not in the property)',
+                       'a bulk update() that fails part-way (raising iterable, malformed pair) leaves its prefix in the mapping; '
+                       'the mapping the object itself reports afterwards is the current mapping',
                        'resolutions are observed through Request.get_media, Response.render_body, get_param_as_json '
                        '(the only raise_not_found=False path reachable with arbitrary mappings) and whole requests']
     leg_m(ctx)
